@@ -66,6 +66,8 @@ def gen_case(rng, params, index):
             g["plant"] = plant
         if benign:
             g["benign"] = benign
+        if not plant:
+            g["markers"] = {s: docs.markers(model[s]) for s in srcs if docs.markers(model[s])}
         return g
 
     pre = rng.chance(0.65)
@@ -264,6 +266,18 @@ def run_case(case, env):
                 vs += engine.freshness(sb, step, relpred, after)
                 stats["runs"] += 1
                 _bump(probes, "freshness_twins_run")
+            if res.exit_status == 0:
+                # accepted: every constant attached value its layout consumes is in the .ui (there is no other place for it)
+                for s, ms in sorted(step.get("markers", {}).items()):
+                    one = dict(step, sources=[s])
+                    uis = [p for p in engine.predicted_outputs(one, sb.root, sb.cwd) if p.endswith(".ui")]
+                    text = (after.content(sb.rel(uis[0])) or b"").decode("utf-8", "replace") if uis else ""
+                    for m in ms:
+                        _bump(probes, "attached_layout_values_looked_up_in_the_ui")
+                        if not re.search(r"(?<![0-9])%d(?![0-9])" % m, text):
+                            vs.append(V("accepted-takes-effect", "c04:attached-value-in-neither-output",
+                                        "accepted document %s: the constant attached value %d (a QLayout.* stretch / minimum binding) is in neither output: <layout> elements are\n%s"
+                                        % (s, m, "\n".join(l.strip() for l in text.splitlines() if "<layout" in l)[:600])))
             if res.exit_status != 0:
                 vs.append(V("recovery", "c04:clean-doc-rejected", "document without planted error exits %s:\n%s" % (res.disposition(), res.stderr[-600:])))
             else:
